@@ -57,6 +57,21 @@ CHECKS = {
         "Trusted: mc/models/timeline.py and mc/models/notes.py.",
         "DESIGN.md 5 (C13)",
     ),
+
+    "C14": (
+        "model_checking",
+        "exhaustive product enumeration (odometer) over the tick grid, decimal/float lattices, rational pairs x operators x operand types, event lists and whitespace arrangements through the real Beat/BeatValues/TimingData, against Python's Fraction/Decimal arithmetic",
+        "Every tick multiple within +-2000 beats (thorough +-20000 and powers of ten to 1e7) round-trips through its three-decimal text, float and Decimal; every decimal string k/1000, k/10^4, k/10^5 and float n/960, n/1024, n/7 in range snaps to a tick within 1/96; all ordered pairs of 95 rationals under + - * / % divmod in five operand-type combinations, unary operators and constructors are exact and return Beat; event lists, blank strings, 16^n whitespace arrangements, and TimingData attribute sources.",
+        "Trusted: Python fractions/decimal. Exact ties between two ticks may round either way.",
+        "DESIGN.md 5 (C14)",
+    ),
+    "C15": (
+        "model_checking",
+        "exhaustive product enumeration of the split-timing configuration space (kind x version x chart kind x {absent,empty,non-empty}^11, offsets, DISPLAYBPM spellings) through the real TimingData/displaybpm with source-revealing sentinel values",
+        "Quick: all vectors with <=3 non-absent chart timing properties plus corners; thorough: all 3^11 vectors, for 2 simfile kinds x 7 versions x 3 chart kinds: all five TimingData attributes must come from the one source the rule selects. OFFSET/DISPLAYBPM {absent, empty, value} on both sides x ignore_specified x all DISPLAYBPM spellings of <=3 tokens x BPMS lists: offset default 0, displayed BPM static/range/random or BPMS min/max of the selected source.",
+        "Trusted: the rule as stated in the property. Blank-padded DISPLAYBPM spellings are accepted either way; chosen source has a non-empty BPMS for the display clause.",
+        "DESIGN.md 5 (C15)",
+    ),
 }
 
 PLANNED = "check not built yet (work in progress this round; design in DESIGN.md section 5)"
